@@ -107,15 +107,17 @@ public:
     {
       if(other.data->ref)
       {
-        Atomic::increment(other.data->ref);
+        Data* newData = other.data;
+        Atomic::increment(newData->ref);
         clear();
-        data = other.data;
+        data = newData;
       }
       else //if(&other != this)
       {
+        Data newData = *other.data;
         clear();
         data = &_data;
-        _data = *other.data;
+        _data = newData;
       }
     }
     return *this;
@@ -327,10 +329,11 @@ public:
   {
     if(data->type != mapType || data->ref > 1)
     {
-      clear();
-      data = (Data*)new char[sizeof(Data) + sizeof(HashMap<String, Variant>)];
-      HashMap<String, Variant>* map = (HashMap<String, Variant>*)(data + 1);
+      Data* newData = (Data*)new char[sizeof(Data) + sizeof(HashMap<String, Variant>)];
+      HashMap<String, Variant>* map = (HashMap<String, Variant>*)(newData + 1);
       new (map) HashMap<String, Variant>(other);
+      clear();
+      data = newData;
       data->type = mapType;
       data->ref = 1;
     }
@@ -367,10 +370,11 @@ public:
   {
     if(data->type != listType || data->ref > 1)
     {
-      clear();
-      data = (Data*)new char[sizeof(Data) + sizeof(List<Variant>)];
-      List< Variant>* list = (List<Variant>*)(data + 1);
+      Data* newData = (Data*)new char[sizeof(Data) + sizeof(List<Variant>)];
+      List< Variant>* list = (List<Variant>*)(newData + 1);
       new (list) List<Variant>(other);
+      clear();
+      data = newData;
       data->type = listType;
       data->ref = 1;
     }
@@ -407,10 +411,11 @@ public:
   {
     if(data->type != arrayType || data->ref > 1)
     {
-      clear();
-      data = (Data*)new char[sizeof(Data) + sizeof(Array<Variant>)];
-      Array<Variant>* array = (Array<Variant>*)(data + 1);
+      Data* newData = (Data*)new char[sizeof(Data) + sizeof(Array<Variant>)];
+      Array<Variant>* array = (Array<Variant>*)(newData + 1);
       new (array) Array<Variant>(other);
+      clear();
+      data = newData;
       data->type = arrayType;
       data->ref = 1;
     }
@@ -455,10 +460,11 @@ public:
   {
     if(data->type != stringType || data->ref > 1)
     {
-      clear();
-      data = (Data*)new char[sizeof(Data) + sizeof(String)];
-      String* string = (String*)(data + 1);
+      Data* newData = (Data*)new char[sizeof(Data) + sizeof(String)];
+      String* string = (String*)(newData + 1);
       new (string) String(other);
+      clear();
+      data = newData;
       data->type = stringType;
       data->ref = 1;
     }
